@@ -5,6 +5,7 @@ package main
 
 import (
 	"fmt"
+	"go/token"
 	"go/types"
 	"os"
 	"path/filepath"
@@ -178,19 +179,49 @@ func ruleC01R3(c *Ctx) {
 // R4: the worker flushes its chunk makers when its input closes, before it reports stopped
 func ruleC01R4(c *Ctx) {
 	const fOnStop = "base/bsupport.PipelineWorkerBase._baseOnStop"
+	// The worker body is _baseRun with its private helpers (the main loop may stand in a helper such as _baseProcessMain
+	// or in _baseRun itself): the main loop is where the input channel is received from.
 	for _, fn := range c.P.Fns(aBaseRun) {
-		main := c.callsTo(fn, anchorPred(aProcMain))
-		stop := sitesWhere(fn, func(s ssa.CallInstruction) bool { return fieldCallOf(s, fOnStop) })
-		sig := c.callsTo(fn, extPred(aSignal))
-		c.checkOrder("C01.R4", fn, "_baseProcessMain", callInstrSet(main), "_baseOnStop()", callInstrSet(stop))
-		// every path from after the main loop to Signal passes the stop handler (nil guard on the handler tolerated)
-		if len(main) == 1 && len(stop) > 0 && len(sig) > 0 {
-			q := &PathQ{P: c.P, Barrier: func(in ssa.Instruction) bool { return callInstrSet(stop)[in] },
-				EdgeBlocked: edgeSet(emptinessGuardEdgesFor(fn, stop))}
-			hit, trail := q.Reach(after(main[0]), func(in ssa.Instruction) bool { return callInstrSet(sig)[in] })
+		var recvs []ssa.Instruction
+		for _, op := range c.chanOpsR(fn) {
+			if (op.Kind == "recv" || op.Kind == "range") && (fieldOf(resolve(op.Chan)) == fBaseInput || fieldOf(op.Chan) == fBaseInput) {
+				recvs = append(recvs, op.In)
+			}
+		}
+		var stop, sig []ssa.CallInstruction
+		for _, s := range c.callsInR(fn) {
+			if fieldCallOf(s, fOnStop) {
+				stop = append(stop, s)
+			}
+			if f := s.Common().StaticCallee(); f != nil && extName(f) == aSignal {
+				sig = append(sig, s)
+			}
+		}
+		c.checkOrder("C01.R4", fn, "main loop (receive from _baseInput)", instrSet(recvs), "_baseOnStop()", callInstrSet(stop))
+		if len(recvs) > 0 && len(stop) > 0 && len(sig) > 0 {
+			// the stop handler runs when the loop is over: no further receive from the input after it
+			q := c.pq(fn)
+			hit, trail := q.Reach(after(stop[0]), func(in ssa.Instruction) bool { return instrSet(recvs)[in] })
+			c.check(hit == nil, "C01.R4", fn, "_baseOnStop() runs after the main loop has ended", stop[0].Pos(),
+				"no receive from the input channel is reachable after the stop handler",
+				"the input channel is received from again after the stop handler (the handler runs inside the loop): "+c.P.trailString(trail))
+			// every path to Signal passes the stop handler (nil guard on the handler tolerated)
+			q = c.pq(fn)
+			q.Barrier = func(in ssa.Instruction) bool { return callInstrSet(stop)[in] }
+			blocked := map[*ssa.BasicBlock]map[int]bool{}
+			for _, st := range stop {
+				for b, si := range emptinessGuardEdgesFor(st.Parent(), []ssa.CallInstruction{st}) {
+					if blocked[b] == nil {
+						blocked[b] = map[int]bool{}
+					}
+					blocked[b][si] = true
+				}
+			}
+			q.EdgeBlocked = func(b *ssa.BasicBlock, si int) bool { return blocked[b][si] }
+			hit, trail = q.Reach(entryOf(fn), func(in ssa.Instruction) bool { return callInstrSet(sig)[in] })
 			c.check(hit == nil, "C01.R4", fn, "_baseOnStop() before _baseStopped.Signal", sig[0].Pos(),
-				"no path from the end of the main loop reaches Signal without calling the stop handler (nil-handler guard tolerated)",
-				"Signal is reachable after the main loop without calling the stop handler: "+c.P.trailString(trail))
+				"no path reaches Signal without calling the stop handler (nil-handler guard tolerated)",
+				"Signal is reachable without calling the stop handler: "+c.P.trailString(trail))
 		} else {
 			c.bad("C01.R4", fn, "_baseOnStop() before _baseStopped.Signal", fn.Pos(), "could not find main loop / stop handler / Signal call")
 		}
@@ -380,8 +411,8 @@ func ruleC01R7(c *Ctx) {
 			c.bad("C01.R7", fn, "drain of "+fname, at.Pos(), "the receive is not inside a loop (the channel would not be drained)")
 			continue
 		}
-		tgt := anchorPred(aUnloadDrop)
-		q := &PathQ{P: c.P, Barrier: func(in ssa.Instruction) bool { return isCallTo(in, c.P, tgt) },
+		unl := callInstrSet(c.sitesMustReach(fn, anchorPred(aUnloadDrop)))
+		q := &PathQ{P: c.P, Barrier: func(in ssa.Instruction) bool { return unl[in] },
 			EdgeBlocked: commaOkFalseEdges(at)}
 		hit, trail := q.Reach(after(at), func(in ssa.Instruction) bool {
 			return (in.Block() == lp.header && in == lp.header.Instrs[0]) || isReturn(in) || (!lp.blocks[in.Block()] && in == in.Block().Instrs[0])
@@ -392,13 +423,16 @@ func ruleC01R7(c *Ctx) {
 	}
 	c.floor("C01.R7", "chunk-holding channels of outputFeeder", nHold, 2)
 	// the chunk in hand
-	c.check(len(c.callsTo(fn, anchorPred(aUnloadDrop))) >= nHold+1, "C01.R7", fn, "lastInputChunk saved", fn.Pos(),
+	unlSites := c.sitesMustReach(fn, anchorPred(aUnloadDrop))
+	c.check(len(unlSites) >= nHold+1, "C01.R7", fn, "lastInputChunk saved", fn.Pos(),
 		"UnloadOrDropChunk is also applied to the chunk in hand (lastInputChunk)", "fewer UnloadOrDropChunk calls than holders (channels + chunk in hand)")
 	lastParam := fn.Params[1]
 	usesLast := false
-	for _, s := range c.callsTo(fn, anchorPred(aUnloadDrop)) {
-		if mentions(s.Common().Args[1], func(v ssa.Value) bool { return v == ssa.Value(lastParam) }) {
-			usesLast = true
+	for _, s := range unlSites {
+		for _, a := range s.Common().Args {
+			if mentions(a, func(v ssa.Value) bool { return v == ssa.Value(lastParam) }) {
+				usesLast = true
+			}
 		}
 	}
 	c.check(usesLast, "C01.R7", fn, "lastInputChunk parameter flows to UnloadOrDropChunk", fn.Pos(), "the chunk-in-hand parameter is unloaded", "the lastInputChunk parameter never reaches UnloadOrDropChunk")
@@ -556,18 +590,76 @@ func ruleC01R8(c *Ctx) {
 		if !ok {
 			return false
 		}
-		isLen := func(v ssa.Value) bool {
+		// the number of parts of the split id differs from the expected number (however that is passed around)
+		isSplitLen := func(v ssa.Value) bool {
 			cl, ok := v.(*ssa.Call)
 			if !ok {
 				return false
 			}
 			bi, ok := cl.Call.Value.(*ssa.Builtin)
-			return ok && bi.Name() == "len"
+			if !ok || bi.Name() != "len" {
+				return false
+			}
+			sp, ok := resolve(cl.Call.Args[0]).(*ssa.Call)
+			return ok && sp.Common().StaticCallee() != nil && extName(sp.Common().StaticCallee()) == "strings.Split"
 		}
-		if !(isLen(bo.X) && isLen(bo.Y)) {
+		if !(isSplitLen(bo.X) || isSplitLen(bo.Y)) {
 			return false
 		}
-		return si == 0 // the "lengths differ" edge
+		switch bo.Op {
+		case token.NEQ:
+			return si == 0 // the "lengths differ" edge
+		case token.EQL:
+			return si == 1
+		}
+		return false
+	}
+	sGOC.ExtraBlocked = malformed
+	// the loop that creates the pipelines iterates the id list it was given, whole (not a sub-slice of it), up to
+	// NewOrchestrator's own parameter
+	for _, site := range c.sitesWhereR(no, func(s ssa.CallInstruction) bool {
+		f := s.Common().StaticCallee()
+		return f != nil && isAnchor(f, aGetOrCreate)
+	}) {
+		f := site.Parent()
+		lp := loopOf(f, site.Block())
+		whole := false
+		var coll ssa.Value
+		if lp != nil {
+			eachInstr(f, func(in ssa.Instruction) {
+				if ia, ok := in.(*ssa.IndexAddr); ok && lp.blocks[in.Block()] && isStringSlice(ia.X.Type()) && coll == nil {
+					coll = strip(ia.X)
+				}
+			})
+		}
+		for hops := 0; coll != nil && hops < 4; hops++ {
+			prm, isP := coll.(*ssa.Parameter)
+			if !isP {
+				break
+			}
+			if prm.Parent() == no {
+				whole = true
+				break
+			}
+			// a helper's parameter: what the (single) call site in the region passes
+			idx := -1
+			for i, q := range prm.Parent().Params {
+				if q == prm {
+					idx = i
+				}
+			}
+			var next ssa.Value
+			for _, cs := range c.callsIn2(no, prm.Parent()) {
+				args := cs.Common().Args
+				if idx >= 0 && idx < len(args) {
+					next = strip(args[idx])
+				}
+			}
+			coll = next
+		}
+		c.check(whole, "C01.R8", f, "the pipeline-creating loop iterates the whole list of recovered ids", site.Pos(),
+			"the loop indexes the id list that NewOrchestrator was given (passed on unchanged)",
+			"the loop that creates pipelines for recovered queues does not iterate the id list NewOrchestrator was given as it is (a sub-slice or another collection): some recovered queues get no pipeline and are never forwarded")
 	}
 	c.mustBeforeReturn("C01.R8", no, entryOf(no), sGOC, "a pipeline is created for every recovered queue id", "LocalCachedMap.GetOrCreate per id (guards: no ids, malformed id)", no.Pos(), malformed)
 }
